@@ -6,7 +6,7 @@ _BY_NAME = {}
 def _load():
   if _BY_NAME:
     return
-  for mod in ("core", "twins", "sched", "scans", "models"):
+  for mod in ("core", "twins", "sched", "scans", "models", "rules", "migr"):
     try:
       m = importlib.import_module("gsim.profiles." + mod)
     except ModuleNotFoundError as e:
